@@ -179,7 +179,14 @@ def gen_case(ck: Check, cap: int):
             opts.setdefault("max_diameter", rng.randint(1, ecc + 1))
         if rng.random() < 0.2:
             opts.setdefault("max_layer_size_to_explore", rng.choice(sizes))
-        return {"gd": gd.to_json(), "cfg": cfg, "opts": opts, "starts": None, "stop": list(stop) if stop else None}
+        starts = None
+        if rng.random() < 0.3:
+            # several start states: layer 0 is the (deduplicated) start set and is stored whatever the threshold
+            orbit = [s for l in layers for s in l]
+            starts = [list(s) for s in rng.sample(orbit, min(len(orbit), rng.randint(2, 6)))]
+            if rng.random() < 0.4:
+                starts.append(list(starts[0]))
+        return {"gd": gd.to_json(), "cfg": cfg, "opts": opts, "starts": starts, "stop": list(stop) if stop else None}
     raise RuntimeError("no case")
 
 
